@@ -520,7 +520,34 @@ func main() {
 		if c.Seed != 0 {
 			r.Seed = c.Seed
 		}
-		runCase(r, genCase(r, c.Index))
+		rc := &c
+		if c.kind() == nil {
+			// bare {seed, index}: regenerate the case
+			rc = genCase(r, c.Index)
+		} else {
+			// the recorded specification is the case (robust against later
+			// changes of the generator); drop what was merely observed
+			known := false
+			for _, v := range c.kind().Variants {
+				known = known || v == c.Variant
+			}
+			if !known {
+				r.Fatalf("replay: kind %s has no variant %q", c.Kind, c.Variant)
+			}
+			c.Family = c.kind().Family
+			c.Label = "attack:" + c.Kind + "/" + c.Variant
+			if c.Target != "sink" {
+				c.Target = "evil"
+			}
+			if c.kind().NeedV6 != nil && c.kind().NeedV6(c.Variant) {
+				c.World.IPv6 = true
+			}
+			c.V6 = c.World.IPv6
+			c.Phase, c.Query, c.Reply, c.Upstream, c.Sink, c.Script, c.Note, c.Addr = "", "", "", nil, nil, nil, "", ""
+		}
+		runCase(r, rc)
+		r.Require("cases_run", 1)
+		r.Require("trigger_replies_judged/attack", 1)
 		r.Finish(rule)
 		return
 	}
@@ -585,7 +612,7 @@ func main() {
 	r.Require("victim_replies_judged/now", int64(nCases*len(victimQuestions)))
 	r.Require("victim_replies_judged/later", int64(nCases*len(victimQuestions)))
 	r.Require("victim_truth/now", int64(nCases*len(victimQuestions)/2))
-	r.Require("victim_truth/later", int64(nCases*len(victimQuestions)))
+	r.Require("victim_truth/later", int64(nCases*len(victimQuestions)*9/10))
 	r.Require("virtual_time_advances", int64(nCases*2*9/10))
 	r.Require("cases_with_silent_sink", 1)
 	r.Require("sink_checks", int64(nCases*5))
